@@ -157,3 +157,20 @@ package golang
 //@   ensures result1 == nil
 //@   ensures ncalls("format.Source") == 0 ==> result0 == content
 //@   ensures ncalls("format.Source") >= 1 ==> callarg("format.Source", 0) == content && (callret("format.Source", 1) != nil ==> result0 == content) && (callret("format.Source", 1) == nil ==> result0 == callret("format.Source", 0))
+
+// Actions of the option table (function literals of the package-level table codeUtilsParams, addressed as
+// codeUtilsParams$<option name>$action): what an option does is independent of the options before and after it.
+// ignore_initialisms records its setting in the CodeUtils itself (not only in the style object current at parse time,
+// which a later naming_style option replaces) and hands the same setting to the current style.
+//@ func codeUtilsParams$ignore_initialisms$action(value string, cu *CodeUtils) error
+//@   requires cu != nil && cu.namingStyle != nil
+//@   ensures value != "" && value != "true" && value != "false" ==> result != nil
+//@   ensures result == nil ==> cu.doInitialisms == (value == "false")
+//@   ensures result == nil ==> ncalls("cu.namingStyle.UseInitialisms") == 1 && callarg("cu.namingStyle.UseInitialisms", 0) == (value == "false")
+//@   modifies cu.doInitialisms
+//@ func codeUtilsParams$naming_style$action(value string, cu *CodeUtils) error
+//@   requires cu != nil
+//@   ensures result == nil ==> cu.namingStyle != nil && cu.namingStyle == callret("styles.NewNamingStyle", 0) && callarg("styles.NewNamingStyle", 0) == value
+//@   ensures result == nil ==> ncalls("cu.namingStyle.UseInitialisms") == 1 && callarg("cu.namingStyle.UseInitialisms", 0) == cu.doInitialisms
+//@   ensures cu.doInitialisms == old(cu.doInitialisms)
+//@   modifies cu.namingStyle
